@@ -34,6 +34,8 @@ impl<'de> Deserialize<'de> for Pairs {
 pub enum Want {
 	/// exactly this result
 	Result(Value),
+	/// any result (e.g. a subscription id)
+	AnyResult,
 	/// an error with one of these codes
 	Err(Vec<i64>),
 }
@@ -196,10 +198,63 @@ pub fn satisfies(exp: &Expect, id: &Value, outcome: &Result<Value, i64>) -> bool
 			ids.contains(id)
 				&& match (want, outcome) {
 					(Want::Result(w), Ok(v)) => w == v,
+					(Want::AnyResult, Ok(_)) => true,
 					(Want::Err(codes), Err(c)) => codes.contains(c),
 					_ => false,
 				}
 		}
 		_ => false,
 	}
+}
+
+/// Maximum bipartite matching between replies and expectations. Returns (for each expectation: index of the reply
+/// matched to it, for each reply: whether it is matched).
+pub fn match_replies(replies: &[(Value, Result<Value, i64>)], expects: &[&Expect]) -> (Vec<Option<usize>>, Vec<bool>) {
+	let adj: Vec<Vec<usize>> = replies.iter().map(|(id, out)| (0..expects.len()).filter(|e| satisfies(expects[*e], id, out)).collect()).collect();
+	let mut m: Vec<Option<usize>> = vec![None; expects.len()];
+	fn augment(f: usize, adj: &Vec<Vec<usize>>, seen: &mut Vec<bool>, m: &mut Vec<Option<usize>>) -> bool {
+		for &e in &adj[f] {
+			if seen[e] {
+				continue;
+			}
+			seen[e] = true;
+			if m[e].is_none() || augment(m[e].unwrap(), adj, seen, m) {
+				m[e] = Some(f);
+				return true;
+			}
+		}
+		false
+	}
+	for f in 0..replies.len() {
+		let mut seen = vec![false; expects.len()];
+		augment(f, &adj, &mut seen, &mut m);
+	}
+	let mut matched = vec![false; replies.len()];
+	for x in m.iter().flatten() {
+		matched[*x] = true;
+	}
+	(m, matched)
+}
+
+/// Classification of one batch entry (already known to be valid JSON): invalid entries are answered -32600 only.
+pub fn classify_entry(text: &str, http: bool) -> Classified {
+	let mut c = classify(text.as_bytes());
+	if let Expect::Reply { want: Want::Err(codes), .. } = &mut c.expect {
+		if codes == &vec![-32600, -32700] {
+			*codes = vec![-32600];
+		}
+	}
+	// subscription methods
+	if c.is_call {
+		let method = c.invokes.as_ref().map(|i| i.0.as_str()).unwrap_or("");
+		if method == "sub" || method == "unsub" {
+			if let Expect::Reply { want, .. } = &mut c.expect {
+				*want = if http { Want::Err(vec![-32603]) } else { Want::AnyResult };
+			}
+			if http || method == "unsub" {
+				c.invokes = None;
+			}
+		}
+	}
+	c
 }
